@@ -56,6 +56,11 @@ type C18Origin struct {
 	// a Self value is that field of the component's state.
 	Self  bool
 	selfT types.Type
+	// Made is the instruction that makes the memory wherever it is (also in callers / callees); nil for constants.
+	Made ssa.Instruction
+	// Shallow: the origin is that of the elements of a container that was copied shallowly (maps.Clone,
+	// slices.Clone): the copy is new, what its elements reference is this memory.
+	Shallow bool
 }
 
 // C18Engine holds the indexes shared by all queries.
@@ -105,15 +110,21 @@ func C18NewEngine(pkgs ...*ssa.Package) *C18Engine {
 					}
 				}
 			}
+		}
+	}
+	// sends, by the struct field the channel is kept in (a channel handed to a helper as a parameter is the field
+	// its callers pass)
+	for _, fn := range e.funcs {
+		for _, in := range Instrs(fn, false) {
 			switch x := in.(type) {
 			case *ssa.Send:
-				if k, _, ok := FieldOf(Unwrap(x.Chan)); ok {
+				for _, k := range e.chanKeys(x.Chan, 0) {
 					e.sends[k] = append(e.sends[k], c18Send{x.X, x})
 				}
 			case *ssa.Select:
 				for _, st := range x.States {
 					if st.Dir == types.SendOnly {
-						if k, _, ok := FieldOf(Unwrap(st.Chan)); ok {
+						for _, k := range e.chanKeys(st.Chan, 0) {
 							e.sends[k] = append(e.sends[k], c18Send{st.Send, x})
 						}
 					}
@@ -221,6 +232,7 @@ func (w *c18Walk) add(k C18Kind, what string, at ssa.Instruction, pos token.Pos,
 	if at != nil && !pos.IsValid() {
 		o.Pos = at.Pos()
 	}
+	o.Made = at
 	w.out = append(w.out, o)
 }
 
@@ -247,8 +259,10 @@ func (w *c18Walk) val(v ssa.Value, a c18Anchor) {
 			w.allocContents(x, a)
 		}
 	case *ssa.Phi:
-		for _, e := range x.Edges {
-			w.val(e, a)
+		for i, e := range x.Edges {
+			if !w.phiUnder(x, i, e, a) {
+				w.val(e, a)
+			}
 		}
 	case *ssa.ChangeType:
 		w.val(x.X, a)
@@ -267,7 +281,7 @@ func (w *c18Walk) val(v ssa.Value, a c18Anchor) {
 	case *ssa.Field:
 		w.val(x.X, a)
 	case *ssa.FieldAddr:
-		if p, ok := x.X.(*ssa.Parameter); ok && c18IsRecv(p) {
+		if p, ok := x.X.(*ssa.Parameter); ok && c18IsRecv(p) && !w.e.helperRecv(p) {
 			w.add(C18State, FieldKey(x.X.Type(), x.Field), x, x.Pos(), a)
 			return
 		}
@@ -376,7 +390,7 @@ func (w *c18Walk) load(p ssa.Value, a c18Anchor) {
 	case *ssa.Global:
 		w.add(C18Unknown, "package variable "+x.Name(), nil, x.Pos(), a)
 	case *ssa.FieldAddr:
-		if pp, ok := x.X.(*ssa.Parameter); ok && c18IsRecv(pp) {
+		if pp, ok := x.X.(*ssa.Parameter); ok && c18IsRecv(pp) && !w.e.helperRecv(pp) {
 			w.add(C18State, FieldKey(x.X.Type(), x.Field), x, x.Pos(), a)
 			return
 		}
@@ -470,7 +484,7 @@ func (w *c18Walk) freeVar(fv *ssa.FreeVar) {
 
 func (w *c18Walk) param(p *ssa.Parameter, a c18Anchor) {
 	fn := p.Parent()
-	if c18IsRecv(p) {
+	if c18IsRecv(p) && !w.e.helperRecv(p) {
 		w.add(C18State, "receiver of "+FuncName(fn), nil, p.Pos(), a)
 		w.out[len(w.out)-1].Self = true
 		w.out[len(w.out)-1].selfT = p.Type()
@@ -511,6 +525,13 @@ func (w *c18Walk) param(p *ssa.Parameter, a c18Anchor) {
 				} else {
 					escapes = true
 				}
+			}
+		}
+		if escapes {
+			// the literal is handed to in-package functions that do nothing with it but call it: its parameters are
+			// the arguments of those calls
+			if cs, ok := w.e.indirectCalls(fn); ok {
+				calls, escapes = cs, false
 			}
 		}
 		if escapes || len(calls) == 0 {
@@ -555,10 +576,61 @@ func (w *c18Walk) call(call *ssa.Call, idx int, a c18Anchor) {
 		w.add(C18Fresh, "Clone()", call, call.Pos(), a)
 		return
 	}
+	if name := c18ShallowCopy(cc); name != "" && len(cc.Args) > 0 {
+		w.add(C18Fresh, name+" (new container)", call, call.Pos(), a)
+		if !w.shallow && c18ElemMutable(cc.Args[0].Type()) {
+			// a shallow copy: the elements of the copy reference the very memory the elements of the argument do
+			n := len(w.out)
+			w.val(cc.Args[0], a)
+			for i := n; i < len(w.out); i++ {
+				if w.out[i].Kind != C18Fresh {
+					w.out[i].Shallow = true
+					w.out[i].What += " (elements shared: " + name + " copies the container only)"
+				}
+			}
+		}
+		return
+	}
 	callee := cc.StaticCallee()
 	if callee == nil && !cc.IsInvoke() {
 		if mc, ok := Resolve(cc.Value).(*ssa.MakeClosure); ok {
 			callee, _ = mc.Fn.(*ssa.Function)
+		}
+	}
+	if callee == nil && !cc.IsInvoke() {
+		// a function value handed in by in-package callers (a parameter object's func field is not followed)
+		if ts, ok := w.e.FuncTargets(cc.Value); ok && len(ts) > 0 {
+			key := fmt.Sprintf("%p#%d", call, idx)
+			if w.seenR[key] {
+				return
+			}
+			w.seenR[key] = true
+			in := a
+			if !in.outside && in.instr == nil {
+				in.instr = call
+			}
+			all := true
+			for _, t := range ts {
+				if t.Blocks == nil || Orig(t).Pkg == nil || !w.e.inScope[Orig(t).Pkg] {
+					if !c18IsCloneFunc(t) {
+						all = false
+					}
+				}
+			}
+			if all {
+				for _, t := range ts {
+					if c18IsCloneFunc(t) {
+						w.add(C18Fresh, "Clone()", call, call.Pos(), a)
+						continue
+					}
+					for _, r := range Returns(t) {
+						if idx < len(r.Results) {
+							w.val(r.Results[idx], in)
+						}
+					}
+				}
+				return
+			}
 		}
 	}
 	// instances of generic functions have no package of their own: scope is decided by their origin
@@ -660,6 +732,14 @@ func (w *c18Walk) recv(ch ssa.Value, a c18Anchor) {
 							followVar(al)
 						}
 					}
+				case *ssa.Call:
+					if g := x.Call.StaticCallee(); g != nil && g.Blocks != nil && Orig(g).Pkg != nil && w.e.inScope[Orig(g).Pkg] {
+						for i, arg := range x.Call.Args {
+							if arg == v && i < len(Orig(g).Params) {
+								follow(Orig(g).Params[i])
+							}
+						}
+					}
 				case *ssa.Send:
 					if x.Chan == v {
 						direct++
@@ -676,6 +756,19 @@ func (w *c18Walk) recv(ch ssa.Value, a c18Anchor) {
 			}
 		}
 		follow(mk)
+	} else if p, ok := ch.(*ssa.Parameter); ok && len(w.e.visibleCallers(p.Parent())) > 0 && !c18IsRecv(p) {
+		key := fmt.Sprintf("recv%p", p)
+		if w.seenR[key] {
+			return
+		}
+		w.seenR[key] = true
+		idx := c18ParamIndex(p)
+		for _, ci := range w.e.visibleCallers(p.Parent()) {
+			if idx < len(ci.Common().Args) {
+				w.recv(ci.Common().Args[idx], out)
+			}
+		}
+		return
 	} else {
 		w.add(C18Unknown, "channel of unknown provenance", nil, ch.Pos(), a)
 		return
@@ -848,4 +941,380 @@ func (w *c18Walk) reaching(al *ssa.Alloc, ld *ssa.UnOp, a c18Anchor) {
 		}
 	}
 	scan(b, at-1)
+}
+
+// ---------------------------------------------------------------------------------------------------------------
+// helpers added with the hardened engine
+
+func c18ParamIndex(p *ssa.Parameter) int {
+	for i, q := range p.Parent().Params {
+		if q == p {
+			return i
+		}
+	}
+	return -1
+}
+
+// visibleCallers: the static call sites of a named, unexported in-package function that is never used as a value
+// (nil: some caller may be invisible).
+func (e *C18Engine) visibleCallers(fn *ssa.Function) []ssa.CallInstruction {
+	if fn == nil || fn.Parent() != nil {
+		return nil
+	}
+	o := Orig(fn)
+	if o.Object() != nil && o.Object().Exported() {
+		return nil
+	}
+	if e.taken[o] || o.Pkg == nil || !e.inScope[o.Pkg] {
+		return nil
+	}
+	return e.callers[o]
+}
+
+// VisibleCallers is visibleCallers for rules.
+func (e *C18Engine) VisibleCallers(fn *ssa.Function) []ssa.CallInstruction {
+	return e.visibleCallers(fn)
+}
+
+// InScope: fn (or the generic function it instantiates) belongs to an analysed package and has a body.
+func (e *C18Engine) InScope(fn *ssa.Function) bool {
+	return fn != nil && Orig(fn).Blocks != nil && Orig(fn).Pkg != nil && e.inScope[Orig(fn).Pkg]
+}
+
+// helperRecv: the receiver parameter p belongs to a method of a parameter-object type (an unexported type without
+// exported methods: a bundle of the arguments of a component's method, not a component): it is an ordinary
+// parameter whose value is what the visible callers pass.
+func (e *C18Engine) helperRecv(p *ssa.Parameter) bool {
+	if !c18IsRecv(p) {
+		return false
+	}
+	if len(e.visibleCallers(p.Parent())) == 0 {
+		return false
+	}
+	t := c18Deref(p.Type())
+	n, ok := t.(*types.Named)
+	if !ok || n.Obj().Exported() {
+		return false
+	}
+	ms := types.NewMethodSet(types.NewPointer(n))
+	for i := 0; i < ms.Len(); i++ {
+		if ms.At(i).Obj().Exported() {
+			return false
+		}
+	}
+	return true
+}
+
+// chanKeys: the struct fields a channel value is kept in; a channel parameter is what the visible callers pass.
+func (e *C18Engine) chanKeys(ch ssa.Value, d int) []string {
+	ch = Resolve(ch)
+	if k, _, ok := FieldOf(ch); ok {
+		return []string{k}
+	}
+	p, ok := ch.(*ssa.Parameter)
+	if !ok || d > 3 || c18IsRecv(p) {
+		return nil
+	}
+	var out []string
+	idx := c18ParamIndex(p)
+	for _, ci := range e.visibleCallers(p.Parent()) {
+		if idx < len(ci.Common().Args) {
+			out = append(out, e.chanKeys(ci.Common().Args[idx], d+1)...)
+		}
+	}
+	return out
+}
+
+// C18ParamCalls: the calls, inside the body of g, of g's own parameter number idx, provided the parameter is used for
+// nothing else (ok=false: it is stored, handed on, ...).
+func C18ParamCalls(g *ssa.Function, idx int) (calls []ssa.CallInstruction, ok bool) {
+	g = Orig(g)
+	if g.Blocks == nil || idx >= len(g.Params) {
+		return nil, false
+	}
+	p := g.Params[idx]
+	var visit func(v ssa.Value, d int) bool
+	visit = func(v ssa.Value, d int) bool {
+		if v.Referrers() == nil || d > 3 {
+			return false
+		}
+		for _, r := range *v.Referrers() {
+			switch x := r.(type) {
+			case *ssa.DebugRef:
+			case ssa.CallInstruction:
+				if x.Common().Value != v {
+					return false
+				}
+				calls = append(calls, x)
+			case *ssa.ChangeType:
+				if !visit(x, d+1) {
+					return false
+				}
+			case *ssa.BinOp: // fn != nil
+			default:
+				return false
+			}
+		}
+		return true
+	}
+	if !visit(p, 0) {
+		return nil, false
+	}
+	return calls, true
+}
+
+// indirectCalls: every use of the function literal lit in its enclosing function is either a direct call or an argument
+// of a static call to an in-package function that only calls that parameter; returns all those calls.
+func (e *C18Engine) indirectCalls(lit *ssa.Function) ([]ssa.CallInstruction, bool) {
+	parent := lit.Parent()
+	if parent == nil {
+		return nil, false
+	}
+	var out []ssa.CallInstruction
+	use := func(fv ssa.Value, in ssa.Instruction) bool {
+		ci, ok := in.(ssa.CallInstruction)
+		if !ok {
+			return false
+		}
+		if ci.Common().Value == fv {
+			out = append(out, ci)
+			return true
+		}
+		g := ci.Common().StaticCallee()
+		if g == nil || Orig(g).Pkg == nil || !e.inScope[Orig(g).Pkg] {
+			return false
+		}
+		for i, arg := range ci.Common().Args {
+			if arg != fv {
+				continue
+			}
+			cs, ok := C18ParamCalls(g, i)
+			if !ok {
+				return false
+			}
+			out = append(out, cs...)
+		}
+		return true
+	}
+	for _, in := range Instrs(parent, true) {
+		if mc, ok := in.(*ssa.MakeClosure); ok && mc.Fn == ssa.Value(lit) {
+			for _, r := range *mc.Referrers() {
+				if _, dbg := r.(*ssa.DebugRef); dbg {
+					continue
+				}
+				if !use(mc, r) {
+					return nil, false
+				}
+			}
+			continue
+		}
+		for _, op := range Operands(in) {
+			if op == ssa.Value(lit) {
+				if !use(op, in) {
+					return nil, false
+				}
+			}
+		}
+	}
+	return out, len(out) > 0
+}
+
+// IndirectCalls is indirectCalls for rules.
+func (e *C18Engine) IndirectCalls(lit *ssa.Function) ([]ssa.CallInstruction, bool) {
+	return e.indirectCalls(lit)
+}
+
+// FuncTargets resolves a function value to the functions it can be: a function, a literal, a bound method, or a
+// parameter of an in-package function all of whose callers are visible (ok=false: anything else).
+func (e *C18Engine) FuncTargets(v ssa.Value) ([]*ssa.Function, bool) {
+	seen := map[ssa.Value]bool{}
+	var out []*ssa.Function
+	var walk func(v ssa.Value, d int) bool
+	walk = func(v ssa.Value, d int) bool {
+		v = Resolve(v)
+		if seen[v] {
+			return true
+		}
+		seen[v] = true
+		if d > 6 {
+			return false
+		}
+		switch x := v.(type) {
+		case *ssa.Function:
+			out = append(out, x)
+			return true
+		case *ssa.MakeClosure:
+			f, ok := x.Fn.(*ssa.Function)
+			if !ok {
+				return false
+			}
+			if f.Synthetic != "" && f.Object() != nil {
+				// bound method wrapper: the method itself
+				if tf, ok := f.Object().(*types.Func); ok {
+					if real := f.Prog.FuncValue(tf); real != nil {
+						out = append(out, real)
+						return true
+					}
+				}
+				return false
+			}
+			out = append(out, f)
+			return true
+		case *ssa.Phi:
+			for _, ed := range x.Edges {
+				if c, isC := ed.(*ssa.Const); isC && c.IsNil() {
+					continue
+				}
+				if !walk(ed, d+1) {
+					return false
+				}
+			}
+			return true
+		case *ssa.Parameter:
+			if c18IsRecv(x) {
+				return false
+			}
+			idx := c18ParamIndex(x)
+			cs := e.visibleCallers(x.Parent())
+			if len(cs) == 0 {
+				return false
+			}
+			for _, ci := range cs {
+				if idx >= len(ci.Common().Args) || !walk(ci.Common().Args[idx], d+1) {
+					return false
+				}
+			}
+			return true
+		}
+		return false
+	}
+	if !walk(v, 0) {
+		return nil, false
+	}
+	return out, true
+}
+
+// c18IsCloneFunc: f is the Clone method of a workflow type of package core.
+func c18IsCloneFunc(f *ssa.Function) bool {
+	if f == nil || f.Name() != "Clone" || f.Signature.Recv() == nil {
+		return false
+	}
+	t := f.Signature.Recv().Type()
+	if p, ok := t.(*types.Pointer); ok {
+		t = p.Elem()
+	}
+	n, ok := t.(*types.Named)
+	return ok && n.Obj().Pkg() != nil && n.Obj().Pkg().Path() == load.Mod+"/core"
+}
+
+// c18ShallowCopy names the library functions that copy a container but not what its elements reference.
+func c18ShallowCopy(cc *ssa.CallCommon) string {
+	f := cc.StaticCallee()
+	if f == nil {
+		return ""
+	}
+	o := Orig(f)
+	if o.Pkg == nil || o.Pkg.Pkg == nil {
+		return ""
+	}
+	switch o.Pkg.Pkg.Path() + "." + o.Name() {
+	case "maps.Clone", "slices.Clone", "golang.org/x/exp/maps.Clone", "golang.org/x/exp/slices.Clone":
+		return o.Pkg.Pkg.Name() + "." + o.Name()
+	}
+	return ""
+}
+
+// c18ElemMutable: the elements (or keys) of container type t hold references.
+func c18ElemMutable(t types.Type) bool {
+	switch u := t.Underlying().(type) {
+	case *types.Map:
+		return C18Mutable(u.Elem()) || C18Mutable(u.Key())
+	case *types.Slice:
+		return C18Mutable(u.Elem())
+	}
+	return true
+}
+
+// phiUnder evaluates edge i (value e) of phi x under the branch condition that leads along that edge, when e is itself
+// a phi of the predecessor block and the condition is decided by sibling phis of that block (single-exit code with a
+// status flag: `if received { v, err = v.Clone() }; return v, err`): only the edges of e on which the flag has the
+// value the branch requires are followed. Returns false when the shape does not apply (the caller walks e plainly).
+func (w *c18Walk) phiUnder(x *ssa.Phi, i int, e ssa.Value, a c18Anchor) bool {
+	y, ok := e.(*ssa.Phi)
+	if !ok || i >= len(x.Block().Preds) {
+		return false
+	}
+	pred := x.Block().Preds[i]
+	if y.Block() != pred || len(pred.Instrs) == 0 || len(pred.Succs) != 2 || pred.Succs[0] == pred.Succs[1] {
+		return false
+	}
+	br, ok := pred.Instrs[len(pred.Instrs)-1].(*ssa.If)
+	if !ok {
+		return false
+	}
+	want := pred.Succs[0] == x.Block()
+	pruned := false
+	var keep []ssa.Value
+	for j, ed := range y.Edges {
+		if val, known := c18CondOnEdge(br.Cond, pred, j, 0); known && val != want {
+			pruned = true
+			continue
+		}
+		keep = append(keep, ed)
+	}
+	if !pruned {
+		return false
+	}
+	for _, ed := range keep {
+		w.val(ed, a)
+	}
+	return true
+}
+
+// c18CondOnEdge: the value of boolean cond when block b is entered along its j-th edge, if the phis of b decide it.
+func c18CondOnEdge(cond ssa.Value, b *ssa.BasicBlock, j int, d int) (val, known bool) {
+	if d > 4 {
+		return false, false
+	}
+	edge := func(v ssa.Value) ssa.Value {
+		if p, ok := v.(*ssa.Phi); ok && p.Block() == b && j < len(p.Edges) {
+			return p.Edges[j]
+		}
+		return nil
+	}
+	switch c := cond.(type) {
+	case *ssa.Phi:
+		if k, ok := edge(c).(*ssa.Const); ok && k.Value != nil && types.Identical(k.Type().Underlying(), types.Typ[types.Bool]) {
+			return k.Value.String() == "true", true
+		}
+	case *ssa.UnOp:
+		if c.Op == token.NOT {
+			v, k := c18CondOnEdge(c.X, b, j, d+1)
+			return !v, k
+		}
+	case *ssa.BinOp:
+		if c.Op != token.EQL && c.Op != token.NEQ {
+			return false, false
+		}
+		l, r := c.X, c.Y
+		if _, isC := l.(*ssa.Const); isC {
+			l, r = r, l
+		}
+		rc, ok := r.(*ssa.Const)
+		if !ok {
+			return false, false
+		}
+		lc, ok := edge(l).(*ssa.Const)
+		if !ok {
+			return false, false
+		}
+		if rc.IsNil() && lc.IsNil() {
+			return c.Op == token.EQL, true
+		}
+		if rc.Value != nil && lc.Value != nil {
+			eq := rc.Value.ExactString() == lc.Value.ExactString()
+			return eq == (c.Op == token.EQL), true
+		}
+	}
+	return false, false
 }
